@@ -101,6 +101,16 @@ Theorem C12_running_between : forall c S E h s x, wf c = true -> plain c = true 
 Proof. exact running_between. Qed.
 Print Assumptions C12_running_between.
 
+(* non-vacuity of the closed form: a three-level plain tree (RSched.Example: root{1 (2s); 2 requires 1
+   {3 (3s, raises, not critical); 4 requires 3 {5 (1s)}}}), its whole history accepted at level 3, and
+   the instants the solver computes for it *)
+Example C12_schedule_nonvacuous :
+  wf RSched.Example.ex_c = true /\ plain RSched.Example.ex_c = true /\
+  accept 3 RSched.Example.ex_c RSched.Example.ex_h = true /\
+  map (Sof RSched.Example.ex_c) [0; 1; 2; 3; 4; 5] = [0; 0; 2; 2; 5; 5]%N /\
+  map (Eof RSched.Example.ex_c) [0; 1; 2; 3; 4; 5] = [6; 2; 6; 5; 6; 6]%N.
+Proof. repeat split; vm_compute; reflexivity. Qed.
+
 Example C12_nonvacuous :
   accept 3 ex_cfg ex_hist = true /\
   existsb (fun e => match e with ETick _ => true | _ => false end) ex_hist = true /\
